@@ -240,14 +240,80 @@ def err(x):
     return Agg('Result', 1, [x])
 
 
+_MEMO = {}
+_PIN = []
+
+
+def _key(x):
+    """hashable identity of an operand: python scalars by value, z3 refs by id (pinned)"""
+    if isinstance(x, (int, bool, str)):
+        return x
+    return id(x)
+
+
+def memo(f):
+    """memoise an expression constructor on operand identity; z3 terms are built once and shared
+    between paths (variables are cached by name, so identical sub-terms recur on every replay)"""
+    name = f.__name__
+
+    def g(*args):
+        k = (name,) + tuple(_key(a) for a in args)
+        r = _MEMO.get(k)
+        if r is None:
+            r = f(*args)
+            _MEMO[k] = (r,)
+            _PIN.append(args)
+            return r
+        return r[0]
+    g.__name__ = name
+    return g
+
+
 def is_conc_bool(b):
     return isinstance(b, bool)
+
+
+@memo
+def _z_not(a):
+    return z3.Not(a)
 
 
 def b_not(a):
     if isinstance(a, bool):
         return not a
-    return z3.Not(a)
+    return _z_not(a)
+
+
+@memo
+def _z_and(*xs):
+    return z3.And(*xs)
+
+
+@memo
+def _z_or(*xs):
+    return z3.Or(*xs)
+
+
+@memo
+def _z_eq(a, b):
+    return a == b
+
+
+@memo
+def _z_cmp(op, sg, x, y):
+    if op == 'Eq':
+        return x == y
+    if op == 'Ne':
+        return x != y
+    if op == 'Lt':
+        return (x < y) if sg else z3.ULT(x, y)
+    if op == 'Le':
+        return (x <= y) if sg else z3.ULE(x, y)
+    if op == 'Gt':
+        return (x > y) if sg else z3.UGT(x, y)
+    if op == 'Ge':
+        return (x >= y) if sg else z3.UGE(x, y)
+    raise ModelGap('cmp ' + op)
 
 
 def b_and(*xs):
@@ -260,7 +326,7 @@ def b_and(*xs):
             out.append(x)
     if not out:
         return True
-    return out[0] if len(out) == 1 else z3.And(*out)
+    return out[0] if len(out) == 1 else _z_and(*out)
 
 
 def b_or(*xs):
@@ -273,17 +339,17 @@ def b_or(*xs):
             out.append(x)
     if not out:
         return False
-    return out[0] if len(out) == 1 else z3.Or(*out)
+    return out[0] if len(out) == 1 else _z_or(*out)
 
 
 def b_eq(a, b):
     if isinstance(a, bool) and isinstance(b, bool):
         return a == b
     if isinstance(a, bool):
-        return b if a else z3.Not(b)
+        return b if a else _z_not(b)
     if isinstance(b, bool):
-        return a if b else z3.Not(a)
-    return a == b
+        return a if b else _z_not(a)
+    return _z_eq(a, b)
 
 
 def b_ite(c, a, b):
@@ -301,7 +367,7 @@ def i_eq(a, b):
     """equality of two I scalars -> bool / z3 Bool"""
     if a.conc() and b.conc():
         return a.v == b.v
-    return a.z() == b.z()
+    return _z_eq(a.z(), b.z())
 
 
 def i_cmp(op, a, b):
@@ -309,20 +375,7 @@ def i_cmp(op, a, b):
     if a.conc() and b.conc():
         x, y = a.v, b.v
         return {'Eq': x == y, 'Ne': x != y, 'Lt': x < y, 'Le': x <= y, 'Gt': x > y, 'Ge': x >= y}[op]
-    x, y = a.z(), b.z()
-    if op == 'Eq':
-        return x == y
-    if op == 'Ne':
-        return x != y
-    if op == 'Lt':
-        return (x < y) if sg else z3.ULT(x, y)
-    if op == 'Le':
-        return (x <= y) if sg else z3.ULE(x, y)
-    if op == 'Gt':
-        return (x > y) if sg else z3.UGT(x, y)
-    if op == 'Ge':
-        return (x >= y) if sg else z3.UGE(x, y)
-    raise ModelGap('cmp ' + op)
+    return _z_cmp(op, sg, a.z(), b.z())
 
 
 def i_ite(c, a, b):
@@ -335,8 +388,16 @@ def in_range(x, lo, hi):
     """lo <= x <= hi (unsigned) for I scalar x"""
     if x.conc():
         return lo <= x.v <= hi
-    w = WIDTH[x.t]
-    return z3.And(z3.UGE(x.v, z3.BitVecVal(lo, w)), z3.ULE(x.v, z3.BitVecVal(hi, w)))
+    return _z_range(x.v, lo, hi, WIDTH[x.t])
+
+
+@memo
+def _z_range(v, lo, hi, w):
+    if lo == hi:
+        return v == z3.BitVecVal(lo, w)
+    if lo == 0:
+        return z3.ULE(v, z3.BitVecVal(hi, w))
+    return z3.And(z3.UGE(v, z3.BitVecVal(lo, w)), z3.ULE(v, z3.BitVecVal(hi, w)))
 
 
 def bytes_of(pybytes):
